@@ -1215,17 +1215,23 @@ func representableConst(c constant.Value, t reflect.Type) bool {
 		}
 		switch t.Kind() {
 		case reflect.Int, reflect.Int8, reflect.Int16, reflect.Int32, reflect.Int64:
-			if _, ok := constant.Int64Val(x); !ok {
+			i, ok := constant.Int64Val(x)
+			if !ok {
 				return false
 			}
+			// A signed type of n bits holds -2^(n-1) .. 2^(n-1)-1.
+			n := uint(bitlen[t.Kind()])
+			return i >= -1<<(n-1) && i <= 1<<(n-1)-1
 		case reflect.Uint, reflect.Uint8, reflect.Uint16, reflect.Uint32, reflect.Uint64, reflect.Uintptr:
-			if _, ok := constant.Uint64Val(x); !ok {
+			u, ok := constant.Uint64Val(x)
+			if !ok {
 				return false
 			}
+			n := uint(bitlen[t.Kind()])
+			return n == 64 || u>>n == 0
 		default:
 			return false
 		}
-		return constant.BitLen(x) <= bitlen[t.Kind()]
 	case isFloat(t):
 		x := constant.ToFloat(c)
 		if x.Kind() != constant.Float {
